@@ -54,6 +54,9 @@ impl Sock {
             _ => return None,
         })
     }
+    pub fn new_plain(t: &str) -> Option<Sock> {
+        Sock::new(t, None)
+    }
     fn backend(&self) -> Arc<dyn MultiPeerBackend> {
         match self {
             Sock::Pub(s) => s.backend(),
